@@ -36,12 +36,13 @@ func init() {
 	engine.Register(&engine.Check{
 		ID: "C05",
 		Run: func(r *engine.Run) {
-			r.Bound = "group of 3, t=2 installed by a real DKG; unique nonce tokens; interleavings of SubmitDEs(1|2), ResetDE, MaxDESize lowered/restored by governance, RequestSignature, RequestSignature rolled back by a failing second message, oracle results put to the group at block end (created / refused for fee limit / refused for lack of nonces inside the cache context), SubmitSignature, blocks (time-outs, retries); MaxDESize in {1,2,3}; depth 5-6 (quick) / 8 (thorough)"
+			r.Bound = "(plus: export/import of the tss genesis for 1-5 members x 1-25 queued pairs x 0-3 consumed, queue order compared) group of 3, t=2 installed by a real DKG; unique nonce tokens; interleavings of SubmitDEs(1|2), ResetDE, MaxDESize lowered/restored by governance, RequestSignature, RequestSignature rolled back by a failing second message, oracle results put to the group at block end (created / refused for fee limit / refused for lack of nonces inside the cache context), SubmitSignature, blocks (time-outs, retries); MaxDESize in {1,2,3}; depth 5-6 (quick) / 8 (thorough)"
 			r.Assumptions = []string{
 				"committee choice is read back from the stored attempt (C09's subject); checked for eligibility (active, non-empty queue)",
 				"a member never registers the same nonce pair twice (tokens are unique by construction)",
 			}
-			r.Required = []string{"de:ok", "de-rejected-over-max", "reset:ok", "req:ok", "retry", "reqfail:sdk/5", "req-rejected:too-few-eligible", "oracle-signing-created", "oracle-signing-refused:fee-limit", "oracle-signing-refused:too-few-eligible", "maxde:ok"}
+			r.Required = []string{"de:ok", "de-rejected-over-max", "reset:ok", "req:ok", "retry", "reqfail:sdk/5", "req-rejected:too-few-eligible", "oracle-signing-created", "oracle-signing-refused:fee-limit", "oracle-signing-refused:too-few-eligible", "maxde:ok", "genesis-round-trip"}
+			genesisRoundTrip(r)
 			tsssig.Run(r, "C05", configs(r.Quick()), 5*time.Minute, 45*time.Minute)
 		},
 		Replay: tsssig.Replay,
